@@ -93,8 +93,8 @@ pub fn probe_trace(tag: u8) -> Vec<Packet> {
     let req = http1::Request { method: "GET".into(), target: "/probe".into(), v11: true, headers: vec![http1::Hdr { name: "Host".into(), value: "probe.test".into(), ows_before: " ".into(), ows_after: String::new() }, http1::Hdr { name: "User-Agent".into(), value: "Mozilla/5.0 Firefox/3.6".into(), ows_before: " ".into(), ows_after: String::new() }, http1::Hdr { name: "Accept-Language".into(), value: "fr,en;q=0.5".into(), ows_before: " ".into(), ows_after: String::new() }] };
     let resp = http1::Response { v11: true, status: 200, reason: Some("OK".into()), headers: vec![http1::Hdr { name: "Server".into(), value: "nginx/1.18".into(), ows_before: " ".into(), ows_after: String::new() }] };
     let f = |n: &str, v: &str, r| h2::Field { name: n.into(), value: v.as_bytes().to_vec(), repr: r, name_indexed: true, huffman_name: false, huffman_value: true };
-    let h2req = crate::props::c16::H2Case { request: true, block: h2::Block { size_updates: vec![], fields: vec![f(":method", "GET", h2::Repr::PreferIndexed), f(":path", "/h2probe", h2::Repr::LiteralIndexed), f(":scheme", "https", h2::Repr::PreferIndexed), f(":authority", "probe.test", h2::Repr::LiteralIndexed), f("user-agent", "probe/2", h2::Repr::LiteralIndexed), f("x-probe", "v", h2::Repr::LiteralIndexed), f("x-probe", "v", h2::Repr::PreferIndexed)] }, framing: h2::HeadersFraming { stream: 1, end_stream: true, pad: None, priority: None, splits: vec![], reserved_bit: false }, pre: vec![crate::props::c16::PreFrame::Settings(vec![(1, 65536), (4, 131072)])], body: None , hostile_tail: vec![], flag_xor: 0 };
-    let h2resp = crate::props::c16::H2Case { request: false, block: h2::Block { size_updates: vec![], fields: vec![f(":status", "200", h2::Repr::PreferIndexed), f("server", "h2srv", h2::Repr::LiteralIndexed)] }, framing: h2::HeadersFraming { stream: 1, end_stream: true, pad: None, priority: None, splits: vec![], reserved_bit: false }, pre: vec![crate::props::c16::PreFrame::Settings(vec![(3, 100)])], body: None , hostile_tail: vec![], flag_xor: 0 };
+    let h2req = crate::props::c16::H2Case { request: true, block: h2::Block { size_updates: vec![], fields: vec![f(":method", "GET", h2::Repr::PreferIndexed), f(":path", "/h2probe", h2::Repr::LiteralIndexed), f(":scheme", "https", h2::Repr::PreferIndexed), f(":authority", "probe.test", h2::Repr::LiteralIndexed), f("user-agent", "probe/2", h2::Repr::LiteralIndexed), f("x-probe", "v", h2::Repr::LiteralIndexed), f("x-probe", "v", h2::Repr::PreferIndexed)] }, framing: h2::HeadersFraming { stream: 1, end_stream: true, pad: None, priority: None, splits: vec![], reserved_bit: false, cont_flags: 0 }, pre: vec![crate::props::c16::PreFrame::Settings(vec![(1, 65536), (4, 131072)])], body: None , hostile_tail: vec![], flag_xor: 0 };
+    let h2resp = crate::props::c16::H2Case { request: false, block: h2::Block { size_updates: vec![], fields: vec![f(":status", "200", h2::Repr::PreferIndexed), f("server", "h2srv", h2::Repr::LiteralIndexed)] }, framing: h2::HeadersFraming { stream: 1, end_stream: true, pad: None, priority: None, splits: vec![], reserved_bit: false, cont_flags: 0 }, pre: vec![crate::props::c16::PreFrame::Settings(vec![(3, 100)])], body: None , hostile_tail: vec![], flag_xor: 0 };
     let t = TraceCase {
         conns: vec![mk(0, Script::None, 22), mk(1, Script::Http1 { req, resp, resp_body: b"hello".to_vec() }, 80), mk(2, Script::Http2 { req: h2req, resp: h2resp }, 8080), mk(3, Script::Tls { hello: tls::simple_hello(), after: vec![] }, 443)],
         schedule: vec![],
@@ -183,7 +183,7 @@ pub fn stream_probe(junk: &[Vec<u8>]) -> Result<(), Fail> {
     let _ = conn;
     let h2req = {
         let f = |n: &str, v: &str, r| h2::Field { name: n.into(), value: v.as_bytes().to_vec(), repr: r, name_indexed: true, huffman_name: false, huffman_value: false };
-        crate::props::c16::H2Case { request: true, block: h2::Block { size_updates: vec![], fields: vec![f(":method", "GET", h2::Repr::PreferIndexed), f(":path", "/p", h2::Repr::LiteralIndexed), f("x-a", "b", h2::Repr::LiteralIndexed), f("x-a", "b", h2::Repr::PreferIndexed)] }, framing: h2::HeadersFraming { stream: 1, end_stream: true, pad: None, priority: None, splits: vec![], reserved_bit: false }, pre: vec![], body: None , hostile_tail: vec![], flag_xor: 0 }.bytes()
+        crate::props::c16::H2Case { request: true, block: h2::Block { size_updates: vec![], fields: vec![f(":method", "GET", h2::Repr::PreferIndexed), f(":path", "/p", h2::Repr::LiteralIndexed), f("x-a", "b", h2::Repr::LiteralIndexed), f("x-a", "b", h2::Repr::PreferIndexed)] }, framing: h2::HeadersFraming { stream: 1, end_stream: true, pad: None, priority: None, splits: vec![], reserved_bit: false, cont_flags: 0 }, pre: vec![], body: None , hostile_tail: vec![], flag_xor: 0 }.bytes()
     };
     for (name, data) in [("http1", h1), ("http2", h2req)] {
         let a = p.parse_request(&data).map(|o| format!("{:?}", o));
@@ -892,7 +892,7 @@ pub fn hostile_bytes(c: &HostileHead) -> Vec<u8> {
         let f = |n: &str, v: &str| h2::Field { name: n.to_ascii_lowercase(), value: v.as_bytes().to_vec(), repr: h2::Repr::LiteralNotIndexed, name_indexed: false, huffman_name: false, huffman_value: false };
         let mut fields = if c.request { vec![f(":method", HH_METHODS[c.start.0 as usize % 8]), f(":path", HH_TARGETS[c.start.1 as usize % 6]), f(":scheme", "https"), f(":authority", "h.test")] } else { vec![f(":status", HH_STATUS[c.start.2 as usize % 9])] };
         fields.extend(hdrs.iter().map(|(n, v)| f(n, v)));
-        return crate::props::c16::H2Case { request: c.request, block: h2::Block { size_updates: vec![], fields }, framing: h2::HeadersFraming { stream: 1, end_stream: true, pad: None, priority: None, splits: vec![], reserved_bit: false }, pre: vec![], body: None, hostile_tail: vec![], flag_xor: 0 }.bytes();
+        return crate::props::c16::H2Case { request: c.request, block: h2::Block { size_updates: vec![], fields }, framing: h2::HeadersFraming { stream: 1, end_stream: true, pad: None, priority: None, splits: vec![], reserved_bit: false, cont_flags: 0 }, pre: vec![], body: None, hostile_tail: vec![], flag_xor: 0 }.bytes();
     }
     let eol = ["\r\n", "\n", "\r\n ", "\r"][c.eol as usize % 4];
     let mut s = if c.request { format!("{} {} {}{eol}", HH_METHODS[c.start.0 as usize % 8], HH_TARGETS[c.start.1 as usize % 6], HH_VERSIONS[c.start.2 as usize % 10]) } else { format!("{} {} OK{eol}", HH_VERSIONS[c.start.0 as usize % 10], HH_STATUS[c.start.2 as usize % 9]) };
